@@ -155,6 +155,20 @@ def gen_literal_case(rng):
     return dict(patterns=pats, opts=o, lines=lines)
 
 
+ANCHORED = ["foo\\z", "\\Afoo", "(?-m:foo$)", "(?-m:^)foo", "fo+\\z", "\\Aa|b\\z", "foo(?-m:$)|bar", "\\A(?:foo|bar)", "[a-z]+\\z", "\\Afoo\\z",
+            "(?-m:^foo$)", "ba?r\\z", "\\w+\\z"]
+
+
+def gen_anchor_case(rng):
+    """haystack anchors x -x / -w: the anchored match is possible only at the start / end of the haystack while other
+    lines match on their own; the terminator must then be withheld"""
+    pat = rng.choice(ANCHORED)
+    o = default_opts(whole=rng.random() < 0.5, word=rng.random() < 0.4, crlf=rng.random() < 0.25, unicode=rng.random() < 0.8)
+    pool = [b"foo", b"bar", b"foo", b"a", b"b", b"x foo", b"foo x", b"fooo", b"br", b"", b"zz", b"foo bar"]
+    lines = [rng.choice(pool) for _ in range(rng.randint(2, 5))]
+    return dict(patterns=[pat], opts=o, lines=lines)
+
+
 def scrape_repo_patterns():
     """every short Rust string literal in the repository's regex-related tests (most are patterns)"""
     pats = set()
@@ -565,6 +579,19 @@ def run_builder_cases(ctx, cases, stats):
                     ctx.violation("find_candidate_line passes over line %d which contains a match (answer %s) "
                                   "(inner_literals_sound / candidate_never_skips)" % (kk, bufcand), dict(rep, buffer=buf.hex()))
                     break
+            # the same promise read line by line: a line that matches on its own (its content taken as the haystack,
+            # which is what the slow line path tests) must not be passed over either when the matcher advertises the
+            # terminator.  Only for "\n"-based terminators (a NUL-advertising matcher is never given the fast path) and
+            # for lines that really are lines (no "\n" / terminator byte inside).
+            if (adv == [0, 10] or adv[0] == 1) and not any(10 in l or (adv[0] == 0 and adv[1] in l) for l in c["lines"]):
+                stats["per_line_candidate_checks"] = stats.get("per_line_candidate_checks", 0) + 1
+                for kk in range(limit):
+                    if sem_matches(smv[kk]):
+                        ctx.violation("the matcher advertises its line terminator, yet find_candidate_line passes over line %d "
+                                      "(%r), which matches on its own (answer %s on the buffer) "
+                                      "(terminator_withheld_with_anchors / line-mode promise)"
+                                      % (kk, c["lines"][kk], bufcand), dict(rep, buffer=buf.hex()))
+                        break
             stats["cand_" + ("none" if not bufcand else ("confirmed" if bufcand[0] == 0 else "candidate"))] = \
                 stats.get("cand_" + ("none" if not bufcand else ("confirmed" if bufcand[0] == 0 else "candidate")), 0) + 1
         ctx.note_case(lines1[i] + repr(c["lines"]), any_match and (nontrivial or bool(tset)))
@@ -754,6 +781,7 @@ CORPUS = [
     (["\\pL{2}quux"], {}), (["a", "b\\d"], {}), (["x*yz"], {}), (["(?:ab){11}"], {}), (["[a-k]z"], {}), (["[a-j]zz"], {}),
     (["Z|[\\r\\n]"], dict(crlf=True, word=True)), (["ZZ|[\\r\\n]"], dict(crlf=True)), (["Z|\\n"], {}), (["ZZ|\\n"], {}),
     (["a\rb"], dict(crlf=True)), (["a\rb"], dict(crlf=True, fixed=True)), (["a\nb"], {}), (["a\rb"], {}), (["a\x00b"], dict(lt=0, ban=None)),
+    (["foo\\z"], dict(whole=True)), (["(?-m:foo$)"], dict(whole=True)), (["\\Afoo"], dict(word=True)),
     (["(?:é\\.|x|K)K"], dict(crlf=True, unicode=False, dotall=True)), (["(?:ab|cd)ef"], {}), (["a(?:bc|de)(?:f|gh)"], {}),
     (["(?:ab|cd)(?:ef|g)\\b"], {}), (["(?:ab|c\\d)ef"], {}),
     (["foo", "b\r"], dict(crlf=True)), (["a.b"], dict(fixed=True)), (["ab", "cd"], {}),
@@ -791,6 +819,9 @@ def run(ctx):
         pats = [gen_pattern(rng) for _ in range(np)]
         o = gen_options(rng)
         cases.append(dict(patterns=pats, opts=o, lines=gen_lines(rng, pats, o, 6)))
+    for _ in range(ctx.count(150)):
+        cases.append(gen_anchor_case(rng))
+    stats["haystack_anchor_cases"] = ctx.count(150)
     for _ in range(ctx.count(250)):
         cases.append(gen_literal_case(rng))
     stats["literal_control_cases"] = ctx.count(250)
